@@ -122,7 +122,7 @@ def facts_for(repo="/repo", config="prod", log=None):
             fcntl.flock(lock, fcntl.LOCK_UN)
 
 
-def _prune_cache(keep, max_entries=6):
+def _prune_cache(keep, max_entries=48):
     """Keep the fact cache small: newest `max_entries` hashes only."""
     base = os.path.join(CACHE, "facts")
     try:
